@@ -174,7 +174,7 @@ func execMessage(in val.V) val.V {
 	return val.List(outs)
 }
 
-var textPieces = []string{"\x0b", "\x0c", "\x1e", "\u0085", "\u2028", "\t", "a", "bc", "", " ", ":", "\n", "\r", "\r\n", "\n\n", "\r\r\n", "id: x", "data: y", "event: z", "retry: 5", "\x00", "\xef\xbb\xbf", "é", "\xff", ": c", "data", "  x"}
+var textPieces = []string{"message", "Message", "open", "error", "*", "\x0b", "\x0c", "\x1e", "\u0085", "\u2028", "\t", "a", "bc", "", " ", ":", "\n", "\r", "\r\n", "\n\n", "\r\r\n", "id: x", "data: y", "event: z", "retry: 5", "\x00", "\xef\xbb\xbf", "é", "\xff", ": c", "data", "  x"}
 
 func genText(r *rng.R) string {
 	n := r.Intn(6)
